@@ -16,14 +16,15 @@ func LangTagConverter(century int, dateFormat DateFormat) func(float64, string, 
 		TAG = 0
 		P1 = 0
 		P2 = 0
-		for ok := true; ok; ok = P1 == 0 {
+		// at low latitudes the day never gets longer than 14 h resp. 16 h: search one year only, P1 / P2 stay 0 then
+		for ok := true; ok; ok = P1 == 0 && TAG < 366 {
 			TAG++
 			DL, _, _, _, _, _, _ := CalculateDayLenght(float64(TAG), LAT)
 			if DL > 14 {
 				P1 = TAG
 			}
 		}
-		for ok := true; ok; ok = P2 == 0 {
+		for ok := P1 > 0; ok; ok = P2 == 0 && TAG < 366 {
 			TAG++
 			DL, _, _, _, _, _, _ := CalculateDayLenght(float64(TAG), LAT)
 			if DL > 16 {
@@ -50,13 +51,21 @@ func LangTagConverter(century int, dateFormat DateFormat) func(float64, string, 
 				progja = progj - 1900
 			}
 
-			P2 = (progja-1)*365 + (progja)/4 + P2
-			P1 = P1 + 20 // Ungefährer Schossbeginn
-			P1 = (progja-1)*365 + (progja)/4 + P1
+			if P2 > 0 {
+				P2 = (progja-1)*365 + (progja)/4 + P2
+			}
+			if P1 > 0 {
+				P1 = P1 + 20 // Ungefährer Schossbeginn
+				P1 = (progja-1)*365 + (progja)/4 + P1
+			}
 		} else {
-			P2 = (anjahr-1)*365 + (anjahr)/4 + P2
-			P1 = P1 + 20 // Ungefährer Schossbeginn
-			P1 = (anjahr-1)*365 + (anjahr)/4 + P1
+			if P2 > 0 {
+				P2 = (anjahr-1)*365 + (anjahr)/4 + P2
+			}
+			if P1 > 0 {
+				P1 = P1 + 20 // Ungefährer Schossbeginn
+				P1 = (anjahr-1)*365 + (anjahr)/4 + P1
+			}
 		}
 		return TAG, P1, P2
 	}
